@@ -141,9 +141,31 @@ def run(chk, repo):
                f"{nm} no longer decides from the parsed identifier type (a prefix shortcut misses other prefixes of the same kind, e.g. 'CI-' for circRNA)",
                key=g.qual + '::parsed', fn=g.qual)
     pp = repo.func('aa.VariantPeptideIdentifier:parse_variant_peptide_id')
-    t = unparse(pp.node)
-    chk.ob('C19.d', 'header parser maps both CIRC and CI prefixes to circRNA identifiers', pp.where,
-           'field.startswith(str(VariantPrefix.CI)) or field.startswith(str(VariantPrefix.CIRC))' in t, 'circRNA prefix dispatch altered', key=pp.qual + '::circ-prefixes', fn=pp.qual)
+    # the condition under which a header field selects the circRNA identifier type, as a boolean function of the prefix tests
+    from sa import sem as _s19d
+    floops = [l for l in walk_no_nested(pp.node) if isinstance(l, ast.For) and any(isinstance(x, ast.Name) and x.id == 'CircRNAVariantPeptideIdentifier' for x in ast.walk(l))]
+    floops = [l for l in floops if not any(m is not l and any(x is m for x in ast.walk(l)) for m in floops)]      # innermost
+    okc, detc = False, 'the loop over the header fields was not found'
+    if len(floops) == 1:
+        lp_ = floops[0]
+        fld = lp_.target.elts[-1].id if isinstance(lp_.target, ast.Tuple) and isinstance(lp_.target.elts[-1], ast.Name) else (lp_.target.id if isinstance(lp_.target, ast.Name) else 'field')
+        ec = _s19d.emit_condition(pp.node, lp_.body, lambda st: _s19d.own_stmt(st) and any(isinstance(x, ast.Name) and x.id == 'CircRNAVariantPeptideIdentifier' for x in ast.walk(st)))
+        if ec is None:
+            detc = 'the dispatch contains a construct that is not understood'
+        else:
+            want_c = ast.parse(f"(not {fld}.startswith(str(VariantPrefix.FUSION))) and ({fld}.startswith(str(VariantPrefix.CI)) or {fld}.startswith(str(VariantPrefix.CIRC)))", mode='eval').body
+            # positional validity tests (`i != 0` raises) may strengthen the condition; only the prefix part is compared: they are assumed to pass
+            class DropIdx(ast.NodeTransformer):
+                def visit_Compare(self, n):
+                    if len(n.ops) == 1 and isinstance(n.left, ast.Name) and isinstance(n.comparators[0], ast.Constant) and n.comparators[0].value == 0:
+                        return ast.Constant(isinstance(n.ops[0], ast.Eq))
+                    return n
+            got_c = DropIdx().visit(ec[0])
+            eqv, wit = _s19d.tt_equal(ast.fix_missing_locations(got_c), want_c)
+            okc = eqv is True
+            detc = f"the circRNA identifier type is selected under `{unparse(ec[0])[:160]}`"
+    chk.ob('C19.d', 'header parser maps both CIRC and CI prefixes to circRNA identifiers', pp.where, okc, 'circRNA prefix dispatch altered: ' + detc,
+           key=pp.qual + '::circ-prefixes', fn=pp.qual)
 
     # ------------------------------------------------------------------ e
     chk.rule('C19.e', 'decision order of the keep rule', 1)
